@@ -78,7 +78,22 @@ Kinds == {"grouping", "typedef", "identity", "feature"}
      devs  : [m, t, n, how, by]  module m deviates the leaf l<n> of that container
              (how = "ns" not-supported | "rep" replace default) or, how = "nsx",
              the leaf x<by> added there by module by
-     off   : names of the features switched off by the caller                   *)
+     off   : names of the features switched off by the caller
+     spath : HOW the scopes "m.x" of the instance are reached from the top level of their module: a sequence of
+             statements, outermost first, the last one being the statement that holds the definitions
+             (RFC 6020: typedef / grouping may stand in container, list, grouping, input, output, notification):
+               "container" / "list"   a container / list (the last one is named x, the others v<i>x)
+               "choice"               choice o<i>x { case w<i>x { ... } }     "short"  choice o<i>x { <container|list> }
+               "input" / "output"     rpc <name> { input|output { ... } }     "notification"  notification <name> { ... }
+               "grouping"             grouping <name> { ... } followed by a uses of it (the definitions are lexically
+                                      inside another grouping and reach the data tree through its expansion)
+               "augment"              container v<i>x { }  augment "/v<i>x" { ... }   (top level only)
+               "uaugment"             uses h<i>x { augment v<i>x { ... } }   (h<i>x a helper grouping with that container)
+             <<"container">> is the plain case: a container x at the top level.  What a reference means does not depend
+             on it (scoping is lexical); only the paths of the data nodes do.
+     ill   : statements added to a fixed well-formed host (see "ill-formed statements" below) whose argument may be of
+             the wrong KIND (absolute / descendant schema node id) or name a node of the wrong kind or no node:
+             [site, arg, tgt, prop, m, at]                                                  *)
 
 \* ------------------------------------------------------------- graph helpers
 RECURSIVE ReachFrom(_, _, _)
@@ -136,8 +151,30 @@ RefError(I) == BadBelongs(I) \/ BadInclude(I) \/ IncludeCycle(I) \/ ImportCycle(
 
 \* ------------------------------------------------------------- meaning: schema
 Top(m) == "/" \o m \o ":t" \o m
-ScopeTop(h) == IF Scoped(h) THEN "/" \o ModH(h) \o ":" \o SubSeq(h, 4, Len(h)) ELSE Top(h)
 Node(p, t, via, d, ids) == [p |-> p, t |-> t, via |-> via, d |-> d, ids |-> ids, ns |-> FALSE]
+\* ---- scope paths (I.spath).  Holders = statements that may hold typedefs and groupings.
+Holders == {"container", "list", "input", "output", "notification", "grouping"}
+Wrappers == Holders \cup {"choice", "short", "augment", "uaugment"}
+ValidSPath(s) == /\ Len(s) \in 1..3 /\ s[Len(s)] \in Holders
+                 /\ \A i \in 2..Len(s) : /\ s[i] \notin {"input", "output", "notification", "augment"}          \* top level only
+                                          /\ (s[i] = "grouping" => s[i-1] \in Holders)                           \* where a grouping may be defined
+                                          /\ (s[i-1] = "short" => s[i] \in {"container", "list"})                 \* shorthand case
+Dig(i) == CASE i = 1 -> "1" [] i = 2 -> "2" [] OTHER -> "3"
+SName(s, i, x) == IF i = Len(s) THEN x ELSE "v" \o Dig(i) \o x
+\* the data path below which the content of element i of the scope path stands (P: the path outside it, u the module)
+SStep(P, u, w, nm) == CASE w \in {"container", "list", "augment", "uaugment"} -> P \o "/" \o u \o ":" \o nm
+                        [] w \in {"input", "output"} -> "#" \o u \o ":" \o nm \o "/" \o w
+                        [] w = "notification" -> "#" \o u \o ":" \o nm
+                        [] OTHER -> P                                   \* choice, case, grouping: not nodes of the data tree
+RECURSIVE SPathAt(_, _, _, _)
+SPathAt(s, u, x, i) == IF i = 0 THEN "" ELSE SStep(SPathAt(s, u, x, i - 1), u, s[i], SName(s, i, x))
+\* the nodes the statements of the scope path themselves are
+SNodes(s, u, x) == UNION {LET p == SPathAt(s, u, x, i) IN
+                          CASE s[i] \in {"container", "augment", "uaugment"} -> {Node(p, "c", "", "", {})}
+                            [] s[i] = "list" -> {Node(p, "list", "", "", {}), Node(p \o "/" \o u \o ":id", "l", "", "", {})}
+                            [] OTHER -> {} : i \in 1..Len(s)}
+ScopeName(h) == SubSeq(h, 4, Len(h))
+ScopeTop(I, h) == IF Scoped(h) THEN SPathAt(I.spath, ModH(h), ScopeName(h), Len(I.spath)) ELSE Top(h)
 \* the nodes a `uses` of grouping g contributes below path P in using module u (RFC 6020 7.12:
 \* the grouping's nodes are copied into the namespace of the using module); `via` tells two
 \* copies of the same grouping apart, so that equal sibling names are seen
@@ -157,6 +194,81 @@ GExp(I, g, P, u, via) ==
                  [] g.pos = "augment" -> P \o q("h") [] OTHER -> P
   IN {Node(kp, "c", v2, "", {}), Node(kp \o "/" \o u \o ":l" \o g.n, "l", v2, "d0", {})} \cup scaffold
      \cup UNION {GExp(I, TargetDef(I, "grouping", g.home, r), under, u, v2) : r \in g.refs}
+\* ---- ill-formed statements (I.ill).  When I.ill # {} module m1 carries a fixed, well-formed HOST:
+\*        grouping eg { container ec { leaf el { default "d0" } leaf em }  leaf-list ell  list eq { key id; leaf id; leaf ev }
+\*                      choice eo { case ew { leaf ex } case ew2 { leaf ex2 } } }
+\*        container eh { uses eg; }         (x.at says where this uses stands, see IllRoot)
+\*        list eu { key id; leaf id; leaf ev; container en { leaf y } }
+\*      and every x in I.ill is ONE statement written in module x.m:
+\*        site "uses-augment"  augment <id> { leaf ea }      under the uses of eg
+\*             "refine"        refine <id> { <x.prop> }      under the uses of eg
+\*             "unique"        unique <id>                    in list eu
+\*             "augment"       augment <id> { leaf eb }      at the top level of x.m
+\*             "deviation"     deviation <id> { deviate <x.prop> }   at the top level of x.m
+\*        arg  "desc" | "abs"  the KIND of schema node id written (descendant: relative to the uses / the list;
+\*                              absolute: from the root)
+\*        tgt  the node the id names: container (ec), leaf (el, has a default), leafnd (em, no default), leaf-list (ell),
+\*             list (eq), choice (eo), case (eo/ew), none (no such node), nonedeep (ec/ez); unique: leaf (ev), nested (en/y),
+\*             container (en), none
+\*      RFC 6020: 7.12.2 / 7.15 uses-augment and refine take a descendant id, a top-level augment and a deviation an absolute
+\*      one (7.18.1), unique descendant ids of leafs (7.8.3); the target of an augment is a container, list, choice, case
+\*      (input, output, notification: not in the host); refine / deviate properties must fit the kind of the target
+\*      (7.12.2, 7.18.3.2).  Anything else is ill-formed: an error.
+IllNeedArg(site) == IF site \in {"uses-augment", "refine", "unique"} THEN "desc" ELSE "abs"
+Augmentable == {"container", "list", "choice", "case"}
+RefineOK(t, prop) == CASE prop = "description" -> TRUE
+                       [] prop = "default" -> t \in {"leaf", "leafnd", "choice"}      \* (for a choice the default written is the case ew)
+                       [] prop = "mandatory" -> t \in {"leafnd", "choice"}            \* 7.6.4: not together with a default
+                       [] prop = "presence" -> t = "container"
+                       [] prop = "min-elements" -> t \in {"list", "leaf-list"}
+                       [] OTHER -> FALSE
+DeviateOK(t, prop) == CASE prop = "not-supported" -> TRUE
+                        [] prop = "replace" -> t = "leaf"          \* replace / delete default: the property must exist
+                        [] prop = "delete" -> t = "leaf"
+                        [] prop = "add" -> t = "leafnd"            \* add default: a leaf that has none
+                        [] OTHER -> FALSE
+IllExists(x) == x.tgt \notin {"none", "nonedeep"}
+IllWF(x) == /\ x.arg = IllNeedArg(x.site) /\ IllExists(x)
+            /\ CASE x.site \in {"uses-augment", "augment"} -> x.tgt \in Augmentable
+                 [] x.site = "refine" -> RefineOK(x.tgt, x.prop)
+                 [] x.site = "unique" -> x.tgt \in {"leaf", "nested"}
+                 [] x.site = "deviation" -> DeviateOK(x.tgt, x.prop)
+                 [] OTHER -> FALSE
+\* the wrong kind of id is where parsers differ (one that refuses it keeps the module set outside C11)
+IllArgKind(I) == \E x \in I.ill : x.arg # IllNeedArg(x.site)
+IllError(I) == \E x \in I.ill : ~IllWF(x)
+\* where the uses of the host grouping stands: directly in container eh ("data"), in a grouping eg2 that eh uses
+\* ("grouping"), inside choice / case in eh ("case"), in the input of rpc eh ("rpc": not part of the data tree)
+IllAt(I) == IF I.ill = {} THEN "data" ELSE (CHOOSE x \in I.ill : TRUE).at
+IllRoot(I) == IF IllAt(I) = "rpc" THEN "#m1:eh/input" ELSE "/m1:eh"
+IllHost(I, m) ==
+  IF I.ill = {} \/ m # "m1" THEN {} ELSE
+  LET R == IllRoot(I)  n(p, t, d) == Node(p, t, "", d, {}) IN
+  (IF IllAt(I) = "rpc" THEN {} ELSE {n(R, "c", "")})
+  \cup {n(R \o "/m1:ec", "c", ""), n(R \o "/m1:ec/m1:el", "l", "d0"), n(R \o "/m1:ec/m1:em", "l", ""), n(R \o "/m1:ell", "leaf-list", ""),
+        n(R \o "/m1:eq", "list", ""), n(R \o "/m1:eq/m1:id", "l", ""), n(R \o "/m1:eq/m1:ev", "l", ""), n(R \o "/m1:ex", "l", ""), n(R \o "/m1:ex2", "l", ""),
+        n("/m1:eu", "list", ""), n("/m1:eu/m1:id", "l", ""), n("/m1:eu/m1:ev", "l", ""), n("/m1:eu/m1:en", "c", ""), n("/m1:eu/m1:en/m1:y", "l", "")}
+\* the data node a target is / below which an added leaf lands (choice and case are not data nodes)
+IllPath(I, x) == LET R == IllRoot(I) IN
+  CASE x.tgt = "container" -> R \o "/m1:ec" [] x.tgt = "leaf" -> R \o "/m1:ec/m1:el" [] x.tgt = "leafnd" -> R \o "/m1:ec/m1:em"
+    [] x.tgt = "leaf-list" -> R \o "/m1:ell" [] x.tgt = "list" -> R \o "/m1:eq" [] OTHER -> R
+Below(q, p) == Len(q) >= Len(p) /\ SubSeq(q, 1, Len(p)) = p /\ (Len(q) = Len(p) \/ SubSeq(q, Len(p) + 1, Len(p) + 1) = "/")
+\* effect of the well-formed statements of module m at the given sites on a set of nodes
+IllOf(I, m, sites) == {x \in I.ill : x.m = m /\ x.site \in sites}
+IllBad(I, m, sites) == \E x \in IllOf(I, m, sites) : ~IllWF(x)
+IllOne(I, x, S) ==
+  CASE x.site = "uses-augment" -> S \cup {Node(IllPath(I, x) \o "/m1:ea", "l", "", "", {})}
+    [] x.site = "augment" -> S \cup {Node(IllPath(I, x) \o "/" \o x.m \o ":eb", "l", "", "", {})}
+    [] x.site = "refine" /\ x.prop = "default" /\ x.tgt \in {"leaf", "leafnd"} -> {IF n.p = IllPath(I, x) THEN [n EXCEPT !.d = "dr"] ELSE n : n \in S}
+    [] x.site = "deviation" /\ x.prop = "not-supported" -> {IF Below(n.p, IllPath(I, x)) THEN [n EXCEPT !.ns = TRUE] ELSE n : n \in S}
+    [] x.site = "deviation" /\ x.prop \in {"replace", "add"} -> {IF n.p = IllPath(I, x) THEN [n EXCEPT !.d = "dv"] ELSE n : n \in S}
+    [] x.site = "deviation" /\ x.prop = "delete" -> {IF n.p = IllPath(I, x) THEN [n EXCEPT !.d = ""] ELSE n : n \in S}
+    [] OTHER -> S
+\* (at most one statement per site and module, so the order of application does not matter)
+RECURSIVE IllApplySet(_, _, _)
+IllApplySet(I, X, S) == IF X = {} THEN S ELSE LET x == CHOOSE y \in X : TRUE IN IllApplySet(I, X \ {x}, IllOne(I, x, S))
+IllApply(I, m, sites, S) == IllApplySet(I, {x \in IllOf(I, m, sites) : IllWF(x)}, S)
+IllApplyAll(I, sites, S) == IllApplySet(I, {x \in I.ill : x.site \in sites /\ IllWF(x)}, S)
 \* identities derived (transitively) from identity i: "module:name"
 Derived(I, i) == LET E == {<<e[2], e[1]>> : e \in KEdges(I, "identity")} IN {x[1] \o ":" \o x[2] : x \in Reach1(E, i)}
 RECURSIVE FeatOn(_, _)
@@ -166,7 +278,7 @@ RPos(I, r) == IF Scoped(r.home) /\ I.rpos \in {"rpc", "notification"} THEN "cont
 \* Nodes whose path starts with "#" (below an rpc or a notification) are not part of the data tree: they take part
 \* in the sibling-name check but not in the schema that is compared.
 RootNodes(I, r) ==
-  LET P == ScopeTop(r.home)  u == ModH(r.home)  lp(x) == P \o "/" \o u \o ":" \o x \o r.n
+  LET P == ScopeTop(I, r.home)  u == ModH(r.home)  lp(x) == P \o "/" \o u \o ":" \o x \o r.n
       sub(x) == "/" \o u \o ":" \o x
       T(k) == TargetDef(I, k, r.home, Ref(r.m, r.n))
       rp == RPos(I, r)
@@ -192,7 +304,8 @@ SubNodes(I, m) == UNION {{Node("/" \o m \o ":c" \o s, "c", "", "", {}), Node("/"
 \* the containers that are scopes of module m (each holds a leaf l0, its definitions and its uses)
 ScopesOf(I, m) == {h \in {d.home : d \in I.defs} \cup {r.home : r \in I.roots} : Scoped(h) /\ ModH(h) = m}
 Literal(I, m) == {Node(Top(m), "c", "", "", {}), Node(Top(m) \o "/" \o m \o ":l0", "l", "", "", {})} \cup SubNodes(I, m)
-                 \cup UNION {{Node(ScopeTop(h), "c", "", "", {}), Node(ScopeTop(h) \o "/" \o m \o ":l0", "l", "", "", {})} : h \in ScopesOf(I, m)}
+                 \cup UNION {SNodes(I.spath, m, ScopeName(h)) \cup {Node(ScopeTop(I, h) \o "/" \o m \o ":l0", "l", "", "", {})} : h \in ScopesOf(I, m)}
+                 \cup IllHost(I, m)
 OwnNodes(I, m) == Literal(I, m) \cup UNION {RootNodes(I, r) : r \in {x \in I.roots : ModH(x.home) = m}}
 AugTarget(a) == Top(a.t) \o "/" \o a.t \o ":k" \o a.n
 \* (a.m is the unit in which the augment is written; its leaf belongs to the namespace of that unit's module)
@@ -207,7 +320,7 @@ DevPrefixOK(I, d) == /\ d.t \in Imports(I, d.m) /\ d.t \in I.mods
                      /\ (d.how = "nsx" => d.by \in Imports(I, d.m) /\ d.by \in I.mods)
 FullTree(I) ==    \* before deviations
   LET own == UNION {OwnNodes(I, m) : m \in I.mods}
-  IN own \cup {AugLeaf(I, a) : a \in {x \in I.augs : Has(own, AugTarget(x), "c")}}
+  IN IllApplyAll(I, {"uses-augment", "refine", "augment"}, own \cup {AugLeaf(I, a) : a \in {x \in I.augs : Has(own, AugTarget(x), "c")}})
 TargetError(I) ==
   LET own == UNION {OwnNodes(I, m) : m \in I.mods}  full == FullTree(I) IN
   \/ \E a \in I.augs : ~AugPrefixOK(I, a) \/ ~Has(own, AugTarget(a), "c")
@@ -223,8 +336,8 @@ Deviated(I, S) ==
 Strip(S) == {[p |-> x.p, t |-> x.t, d |-> x.d, ids |-> x.ids] : x \in {y \in S : SubSeq(y.p, 1, 1) # "#"}}
 
 Verdict(I) == IF RefError(I) THEN "error"
-              ELSE IF Collides(UNION {OwnNodes(I, m) : m \in I.mods}) \/ TargetError(I) THEN "error" ELSE "ok"
-Schema(I) == IF Verdict(I) = "ok" THEN Strip(Deviated(I, FullTree(I))) ELSE {}
+              ELSE IF Collides(UNION {OwnNodes(I, m) : m \in I.mods}) \/ TargetError(I) \/ IllError(I) THEN "error" ELSE "ok"
+Schema(I) == IF Verdict(I) = "ok" THEN Strip({n \in IllApplyAll(I, {"deviation"}, Deviated(I, FullTree(I))) : ~n.ns}) ELSE {}
 Expected(I) == [verdict |-> Verdict(I), schema |-> Schema(I)]
 \* What is judged on the real compiler.  A dangling reference inside a definition that no data node
 \* (transitively) uses is an error by RFC 6020, but the property statement only demands that cycles are
@@ -244,6 +357,7 @@ Defects(I) ==
   \cup (IF DanglingUsed(I) THEN {"dangling-used"} ELSE IF Dangling(I) THEN {"dangling-unused"} ELSE {})
   \cup (IF ~RefError(I) /\ Collides(UNION {OwnNodes(I, m) : m \in I.mods}) THEN {"name-clash"} ELSE {})
   \cup (IF ~RefError(I) /\ TargetError(I) THEN {"target-missing"} ELSE {})
+  \cup (IF IllError(I) THEN {"ill-formed"} ELSE {})
 \* Which local references carry the module's own prefix (the renderer follows exactly this rule): all of them
 \* ("o"), or ("mix") those of the definitions a and c and of the data nodes using a typedef or a feature.
 OwnSpelled(I, src) == I.spell = "o" \/ (I.spell = "mix" /\ src \in {"a", "c", "typedef", "feature"})
@@ -312,9 +426,12 @@ GroupingsBad(I, m) == \E g \in {d \in DefsK(I, "grouping") : ModH(d.home) = m} :
 \*     trees as they are NOW)
 ExpandBad(I, m) == \/ m \notin I.mods
                    \/ \E r \in {x \in I.roots : ModH(x.home) = m /\ x.k = "grouping"} : ~RootResolves(I, r)
-ExpandedOwn(I, m) == Literal(I, m) \cup UNION {RootNodes(I, r) : r \in {x \in I.roots : ModH(x.home) = m /\ x.k = "grouping"}}
+                   \/ IllBad(I, m, {"uses-augment", "refine", "augment"})
+ExpandedOwn(I, m) == IllApply(I, m, {"uses-augment", "refine"},
+                              Literal(I, m) \cup UNION {RootNodes(I, r) : r \in {x \in I.roots : ModH(x.home) = m /\ x.k = "grouping"}})
 \* --- build of module m: types, identityrefs, if-features of its data nodes; typedef cycles anywhere in m
 BuildBad(I, m) == \/ \E r \in {x \in I.roots : ModH(x.home) = m /\ x.k # "grouping"} : ~RootResolves(I, r)
+                  \/ IllBad(I, m, {"unique"})
                   \/ \E d \in {x \in DefsK(I, "typedef") : ModH(x.home) = m} :
                         \/ ReachesCycle(KEdges(I, "typedef"), DefKey(d))
                         \/ \E r \in d.refs : ~Resolves(I, d.home, "typedef", r)
@@ -350,24 +467,28 @@ Expand == /\ phase = "expand"
                   ELSE LET own == ExpandedOwn(inst, m)
                            t1 == [trees EXCEPT ![m] = trees[m] \cup own]      \* keeps what others augmented into m earlier
                            myaugs == {a \in inst.augs : UnitMod(inst, a.m) = m}
-                       IN IF Collides(own) \/ \E a \in myaugs : ~AugPrefixOK(inst, a) \/ ~Has(t1[a.t], AugTarget(a), "c")
+                           illaugs == IllOf(inst, m, {"augment"})      \* (their target lives in the tree of m1)
+                       IN IF \/ Collides(own) \/ \E a \in myaugs : ~AugPrefixOK(inst, a) \/ ~Has(t1[a.t], AugTarget(a), "c")
+                             \/ \E x \in illaugs : ~\E n \in t1["m1"] : n.p = IllPath(inst, x)
                           THEN Fail
-                          ELSE /\ trees' = [x \in DOMAIN t1 |-> t1[x] \cup {AugLeaf(inst, a) : a \in {y \in myaugs : y.t = x}}]
+                          ELSE /\ trees' = [x \in DOMAIN t1 |-> LET t2 == t1[x] \cup {AugLeaf(inst, a) : a \in {y \in myaugs : y.t = x}}
+                                                                  IN IF x = "m1" THEN IllApply(inst, m, {"augment"}, t2) ELSE t2]
                                /\ pos' = pos + 1 /\ UNCHANGED <<inst, phase, todo, order, out>>
 
 Deviate == /\ phase = "deviate"
            /\ IF pos > Len(order)
               THEN /\ phase' = "build" /\ pos' = 1 /\ UNCHANGED <<inst, todo, order, trees, out>>
               ELSE LET m == order[pos]  mydevs == {d \in inst.devs : d.m = m} IN
-                   IF \E d \in mydevs : ~DevPrefixOK(inst, d) \/ ~Has(trees[d.t], DevTarget(d), "l")
+                   IF \/ \E d \in mydevs : ~DevPrefixOK(inst, d) \/ ~Has(trees[d.t], DevTarget(d), "l")
+                      \/ IllBad(inst, m, {"deviation"}) \/ \E x \in IllOf(inst, m, {"deviation"}) : ~\E n \in trees["m1"] : n.p = IllPath(inst, x)
                    THEN Fail
                    ELSE \* the deviations are recorded on the leaf (who replaced it) and resolved as in the meaning
-                        /\ trees' = [x \in DOMAIN trees |->
+                        /\ trees' = [x \in DOMAIN trees |-> IllApply(inst, m, IF x = "m1" THEN {"deviation"} ELSE {},
                                        {IF \E d \in mydevs : d.t = x /\ DevTarget(d) = n.p
                                         THEN LET d == CHOOSE d \in mydevs : d.t = x /\ DevTarget(d) = n.p IN
                                              IF d.how = "rep" THEN [n EXCEPT !.d = IF n.d \in {"", "d0"} THEN "d" \o m ELSE IF n.d = "d" \o m THEN n.d ELSE "?"]
                                              ELSE [n EXCEPT !.ns = TRUE]
-                                        ELSE n : n \in trees[x]}]
+                                        ELSE n : n \in trees[x]})]
                         /\ pos' = pos + 1 /\ UNCHANGED <<inst, phase, todo, order, out>>
 
 Build == /\ phase = "build"
